@@ -190,8 +190,10 @@ func (env *SpecEnv) eval(e *SExpr) TV {
 			switch e.Name {
 			case "$spawned", "$fcalls":
 				return TV{IntLit(0), types.Typ[types.Int]}
-			case "$quiet", "$defaultTaken", "$inWorker", "$failed":
+			case "$quiet", "$defaultTaken", "$inWorker", "$failed", "$recovered", "$exited":
 				return TV{False, types.Typ[types.Bool]}
+			case "$exitcode":
+				return TV{IntLit(0), types.Typ[types.Int]}
 			}
 			env.fail(e, "unknown ghost variable")
 		}
